@@ -11,7 +11,7 @@ edit(sys.argv[1], sys.argv[2].encode().decode('unicode_escape'), sys.argv[3].enc
 PY
 [ $? = 0 ] || { git -C /repo worktree remove --force $WT; echo "EDIT FAILED"; exit 2; }
 for p in $PROPS; do
-  VERIF_REPO=$WT /verif/check $p --tier $TIER > /tmp/mut_$$.out 2>&1; rc=$?
+  VERIF_EVIDENCE_DIR=/tmp/verif-scratch-evidence VERIF_REPO=$WT /verif/check $p --tier $TIER > /tmp/mut_$$.out 2>&1; rc=$?
   echo "== $p rc=$rc $(grep -c '^VIOLATION' /tmp/mut_$$.out) violation lines"; grep -A1 '^VIOLATION\|MACHINERY' /tmp/mut_$$.out | cut -c1-260 | head -8
 done
 rm -f /tmp/mut_$$.out
